@@ -383,8 +383,12 @@ def run_cli(ctx, batch, case):
         if rc != 0:
             ctx.fail(f"whatshap phase exited with {rc}: {se[-300:]}", _slim(case), key="cli-crash")
             return
-        _, samples, recs = sim.read_vcf(out)
         _, _, inrecs = sim.read_vcf(paths["vcf"])
+        try:
+            _, samples, recs = sim.read_vcf(out)
+        except Exception as e:      # the output of a successful run must be a readable VCF
+            ctx.fail(f"output VCF of whatshap phase cannot be parsed: {type(e).__name__}: {e}", _slim(case), key="output-vcf-unreadable")
+            return
         check_cli(ctx, batch, case, samples, recs, inrecs, trace)
     finally:
         shutil.rmtree(d, ignore_errors=True)
